@@ -79,10 +79,12 @@ pub struct HuffmanBlobStore<S: BlobStore> {
     stats: EntropyCompressionStats,
     training_data: Vec<u8>,
     encoder: Option<HuffmanEncoder>,
-    tree: Option<HuffmanTree>,
-    /// Original length of every record that was stored Huffman-encoded
+    tree: Option<std::sync::Arc<HuffmanTree>>,
+    /// Original length of every record that was stored Huffman-encoded and the
+    /// tree it was encoded with, which stays in use for that record when
+    /// `build_tree` is called again
     /// (the metadata needed to decode it; all other records are stored as-is)
-    encoded_lengths: std::collections::HashMap<crate::RecordId, usize>,
+    encoded_lengths: std::collections::HashMap<crate::RecordId, (usize, std::sync::Arc<HuffmanTree>)>,
 }
 
 impl<S: BlobStore> HuffmanBlobStore<S> {
@@ -112,7 +114,7 @@ impl<S: BlobStore> HuffmanBlobStore<S> {
         let tree = HuffmanTree::from_data(&self.training_data)?;
         let encoder = HuffmanEncoder::new(&self.training_data)?;
 
-        self.tree = Some(tree);
+        self.tree = Some(std::sync::Arc::new(tree));
         self.encoder = Some(encoder);
 
         Ok(())
@@ -154,7 +156,7 @@ impl<S: BlobStore> HuffmanBlobStore<S> {
             .as_ref()
             .ok_or_else(|| ZiporaError::invalid_data("Huffman tree not built"))?;
 
-        let decoder = HuffmanDecoder::new(tree.clone());
+        let decoder = HuffmanDecoder::new(HuffmanTree::clone(tree));
         let decompressed = decoder.decode(compressed, original_length)?;
 
         self.stats.decompression_time_us += start.elapsed().as_micros() as u64;
@@ -167,20 +169,22 @@ impl<S: BlobStore> HuffmanBlobStore<S> {
 impl<S: BlobStore> BlobStore for HuffmanBlobStore<S> {
     fn get(&self, id: crate::RecordId) -> Result<Vec<u8>> {
         let stored = self.inner.get(id)?;
-        match (self.encoded_lengths.get(&id), self.tree.as_ref()) {
-            (Some(&original_length), Some(tree)) => {
-                HuffmanDecoder::new(tree.clone()).decode(&stored, original_length)
+        match self.encoded_lengths.get(&id) {
+            Some((original_length, tree)) => {
+                HuffmanDecoder::new(HuffmanTree::clone(tree)).decode(&stored, *original_length)
             }
-            _ => Ok(stored),
+            None => Ok(stored),
         }
     }
 
     fn put(&mut self, data: &[u8]) -> Result<crate::RecordId> {
-        if self.encoder.is_some() && !data.is_empty() {
+        // The tree that belongs to the current encoder (build_tree sets both together)
+        let tree = self.tree.clone().filter(|_| !data.is_empty());
+        if let Some(tree) = tree {
             match self.compress_data(data) {
                 Ok(compressed) => {
                     let id = self.inner.put(&compressed)?;
-                    self.encoded_lengths.insert(id, data.len());
+                    self.encoded_lengths.insert(id, (data.len(), tree));
                     self.stats.blob_stats.put_count += 1;
                     Ok(id)
                 }
@@ -206,7 +210,7 @@ impl<S: BlobStore> BlobStore for HuffmanBlobStore<S> {
 
     fn size(&self, id: crate::RecordId) -> Result<Option<usize>> {
         match self.encoded_lengths.get(&id) {
-            Some(&original_length) if self.inner.contains(id) => Ok(Some(original_length)),
+            Some(&(original_length, _)) if self.inner.contains(id) => Ok(Some(original_length)),
             _ => self.inner.size(id),
         }
     }
